@@ -10,7 +10,9 @@ import (
 	"compress/gzip"
 	"compress/lzw"
 	"compress/zlib"
+	"encoding/binary"
 	"fmt"
+	"hash/crc32"
 	"image"
 	"image/color"
 	"image/gif"
@@ -357,6 +359,45 @@ func SmallDictItems(r *rand.Rand) ([]*Item, error) {
 	}
 	out = append(out, &Item{Kind: "xz", Enc: enc2, Payload: b, Setting: "xz-dict4k", PClass: "periodic", Valid: true})
 	return out, nil
+}
+
+// PNGWithTextChunks returns the PNG with tEXt / iTXt / eXIf chunks inserted
+// (where: 0 before the first IDAT, 1 after the last IDAT, 2 both).
+func PNGWithTextChunks(png []byte, where int) []byte {
+	chunk := func(typ string, data []byte) []byte {
+		var b bytes.Buffer
+		binary.Write(&b, binary.BigEndian, uint32(len(data)))
+		b.WriteString(typ)
+		b.Write(data)
+		binary.Write(&b, binary.BigEndian, crc32.ChecksumIEEE(append([]byte(typ), data...)))
+		return b.Bytes()
+	}
+	meta := append(chunk("tEXt", []byte("Title\x00verif")), chunk("iTXt", []byte("Comment\x00\x00\x00\x00\x00hello"))...)
+	meta = append(meta, chunk("eXIf", []byte("MM\x00\x2A\x00\x00\x00\x08\x00\x00"))...)
+	var out []byte
+	out = append(out, png[:8]...)
+	seenIDAT, done := false, false
+	for p := 8; p+12 <= len(png); {
+		n := int(binary.BigEndian.Uint32(png[p:]))
+		typ := string(png[p+4 : p+8])
+		end := p + 12 + n
+		if end > len(png) {
+			break
+		}
+		if typ == "IDAT" && !seenIDAT {
+			seenIDAT = true
+			if where == 0 || where == 2 {
+				out = append(out, meta...)
+			}
+		}
+		if typ == "IEND" && !done && (where == 1 || where == 2) {
+			out = append(out, meta...)
+			done = true
+		}
+		out = append(out, png[p:end]...)
+		p = end
+	}
+	return out
 }
 
 // HashItems: the payload itself is the input of each hasher.
